@@ -474,11 +474,15 @@ class SelectWith(Statement):
         arg: Value = self._arg
 
         if isinstance(TypeQualifier.decay(arg.result), BitVector):
-            root = TypeQualifier.decay(arg.result._root)
+            root_type = type(TypeQualifier.decay(arg.result._root))
 
-            if isinstance(root, Unsigned):
+            if issubclass(root_type, Array):
+                # the choices are formatted with the type of the array element
+                root_type = root_type._elemtype_
+
+            if issubclass(root_type, Unsigned):
                 arg = Value(arg.result.unsigned)
-            elif isinstance(root, Signed):
+            elif issubclass(root_type, Signed):
                 arg = Value(arg.result.signed)
             else:
                 arg = Value(arg.result.bitvector)
@@ -516,11 +520,15 @@ class CaseWhen(Statement):
         cond: Value = self._cond
 
         if isinstance(TypeQualifier.decay(cond.result), BitVector):
-            root = TypeQualifier.decay(cond.result._root)
+            root_type = type(TypeQualifier.decay(cond.result._root))
 
-            if isinstance(root, Unsigned):
+            if issubclass(root_type, Array):
+                # the choices are formatted with the type of the array element
+                root_type = root_type._elemtype_
+
+            if issubclass(root_type, Unsigned):
                 cond = Value(cond.result.unsigned)
-            elif isinstance(root, Signed):
+            elif issubclass(root_type, Signed):
                 cond = Value(cond.result.signed)
             else:
                 cond = Value(cond.result.bitvector)
